@@ -550,3 +550,6 @@ add('C05.twin_pad_data', 'C05', (QTS, "    even_data = flattened_data[::2] & 0x0
 add('C04.concat_overwrites_input_stats', 'C04', (MMU, "  op_tensor_params.append(output_tensor_params)\n\n  return op_tensor_params\n\n\ndef _materialize_standard_op_no_constraint(",
     "  op_tensor_params.append(output_tensor_params)\n  output_tensor_qsv = tensor_name_to_qsv.get(output_tensor_params.tensor_name)\n  if output_tensor_qsv is not None:\n    for input_tensor in input_tensors:\n      tensor_name_to_qsv[tfl_flatbuffer_utils.get_tensor_name(input_tensor)] = (\n          output_tensor_qsv\n      )\n\n  return op_tensor_params\n\n\ndef _materialize_standard_op_no_constraint("),
     'C04.R6', 'same-as-output helper also overwrites the statistics of the op INPUTS (seeded b4-C04)')
+add('C11.check_only_star', 'C11', (RM, "          if selected_recipe.algorithm_key != AlgorithmName.NO_QUANTIZE:\n            # The selected recipe must contain a supported config.",
+    "          if (\n              selected_recipe.algorithm_key != AlgorithmName.NO_QUANTIZE\n              and selected_recipe.operation == _TFLOpName.ALL_SUPPORTED\n          ):\n            # The selected recipe must contain a supported config."),
+    'C11.R3', 'resolve-time support check only for "*" rules: a specific-op rule that became unsupported (policy replaced) is still selected (seeded b4-C03; MISSED by the first version: the store lattice had no unsupported specific-op rule)')
